@@ -183,3 +183,12 @@ Example lender_edits_other_handle :
   /\ run (init 1) [ (0, ALend 1); (0, ARelease) ] = Stuck      (* the lent handle itself cannot be dropped *)
   /\ run (init 1) [ (0, ALend 1); (0, AProbe 0) ] = Stuck.     (* nor probed: no &mut on a lent handle *)
 Proof. vm_compute. auto. Qed.
+(* ... and may move its other handles into new threads (the lent one stays): thread 0 holds two, lends one to thread 1,
+   moves the other into thread 2, which edits nothing it is not entitled to and drops it; giving away the lent handle
+   itself is not a step *)
+Example lender_spawns_other_handle :
+  is_ok (run (init 2) [ (0, AClone); (0, ALend 1); (0, ASpawn 2 1); (1, AReadB); (2, ARead); (2, AProbe 0); (2, ARelease);
+                        (1, ACloneB); (1, ARelease); (0, AJoinB 1); (0, AJoin 2); (0, AProbe 0); (0, AWrite); (0, ARelease);
+                        (0, AFence); (0, AFree) ]) = true
+  /\ run (init 2) [ (0, ALend 1); (0, ASpawn 2 1) ] = Stuck.
+Proof. vm_compute. auto. Qed.
